@@ -342,6 +342,13 @@ fn exec_inner(s: &mut CrdtSession, toks: &[&str], enc: TextEncoding) -> Vec<Stri
             }
             res
         }
+        "crdt.loadpiece" => {
+            let (file, _) = s.files.get(toks[2]).expect("file").clone();
+            let (a, b): (usize, usize) = (toks[3].parse().unwrap(), toks[4].parse().unwrap());
+            let d = s.replicas.get_mut(toks[1]).unwrap();
+            let r = d.load_incremental(&file[a..b]);
+            vec![format!("{} {}", match &r { Ok(_) => "ok".to_string(), Err(automerge::AutomergeError::DuplicateSeqNumber(q, a)) => format!("err dupseq {} {}", q, show_actor(a)), Err(_) => "err".to_string() }, summary(d))]
+        }
         "crdt.loadinc" => {
             let mut data = vec![];
             if toks[2] != "-" { for h in toks[2].split(',') { data.extend(s.changes.get(h).expect("unknown change").raw_bytes()); s.offered.entry(toks[1].to_string()).or_default().insert(h.to_string()); } }
@@ -1065,6 +1072,31 @@ pub fn generate_storage(r: &mut Rng, opts: &BTreeMap<String, String>, sess: &mut
         exec_line(sess, &format!("crdt.loadcut y error f {}", k), out);
         out.count("cuts");
         if r.chance(1, 8) && sess.crdt.replicas.contains_key("x") { exec_line(sess, "crdt.state x", out); }
+    }
+    // C12: a reader equal to the writer at the first boundary is fed every later piece through
+    // load_incremental, in shuffled order with repetitions, then everything once more (idempotence)
+    if exp.len() >= 2 {
+        let rd_actor = hex::encode(r.bytes(3));
+        exec_line(sess, &format!("crdt.new rd {} {}", enc, rd_actor), out);
+        exec_line(sess, &format!("crdt.loadpiece rd f 0 {}", exp[0].0), out);
+        let mut pieces: Vec<(usize, usize)> = exp.windows(2).map(|w| (w[0].0, w[1].0)).collect();
+        let extra: Vec<(usize, usize)> = pieces.iter().filter(|_| r.chance(1, 3)).cloned().collect();
+        pieces.extend(extra);
+        for i in (1..pieces.len()).rev() { let j = r.below(i as u64 + 1) as usize; pieces.swap(i, j); }
+        for (a, b) in &pieces { exec_line(sess, &format!("crdt.loadpiece rd f {} {}", a, b), out); }
+        let st1 = exec_line(sess, "crdt.state rd", out);
+        let stw = exec_line(sess, "crdt.state w", out);
+        let hr = sess.crdt.replicas.get_mut("rd").unwrap().get_heads();
+        let hw = sess.crdt.replicas.get_mut("w").unwrap().get_heads();
+        if st1[0] != stw[0] || hr != hw { out.count("oracle_failures"); out.line("! C12 sig=catch-up-differs a reader fed every later piece through load_incremental (shuffled, repeated) differs from the writer"); }
+        for (a, b) in &pieces { exec_line(sess, &format!("crdt.loadpiece rd f {} {}", a, b), out); }
+        let st2 = exec_line(sess, "crdt.state rd", out);
+        if st2[0] != st1[0] { out.count("oracle_failures"); out.line("! C12 sig=not-idempotent feeding the same pieces again changed the document"); }
+        out.count("c12_compositions");
+        // whole-file load = writer
+        exec_line(sess, &format!("crdt.loadcut wf ignore f {}", file.len()), out);
+        let stf = exec_line(sess, "crdt.state wf", out);
+        if stf[0] != stw[0] { out.count("oracle_failures"); out.line("! C12 sig=concat-differs loading the whole concatenation differs from the writer's in-memory document"); }
     }
     // single-bit flips
     let nbits = file.len() * 8;
